@@ -134,6 +134,9 @@ End(e) ==
      \* every lazy static initialised in this execution has been dropped, every thread-local instance too
      /\ (e.v \in {"stopped"} \/ (e.v = "ok" /\ Unfinished(s1) = {}) => /\ \A i \in 0..1 : s1.once[Prog(s1).nonce + 2 + i + 1].st = "done" => i \in s1.lzdropped
                                        /\ ("tlslive" \in DOMAIN e => e.tlslive = 0))
+     \* nothing a task owned (captured by its closure or living on its stack) survives the teardown of a
+     \* non-failing execution, whether its tasks finished, were cut off, or never started
+     /\ (e.v \in {"ok", "stopped"} /\ "toklive" \in DOMAIN e) => e.toklive = 0
      /\ CASE e.v = "ok" -> \/ (~BoundHit(s1) /\ Ends(s1) /\ Attached(s1) = {})
                             \* abandoned silently by a continue-after bound (or: finished exactly on the bound)
                             \/ (BoundHit(s1) /\ (~BoundFails(s1) \/ (Ends(s1) /\ Attached(s1) = {})))
